@@ -407,3 +407,32 @@ Proof.
   destruct (G (seq 0 nout) (seq_NoDup nout 0)) as [G1 G2]. split; [exact G1|].
   intros e He. apply G2 in He. apply in_seq in He. lia.
 Qed.
+
+(* ---- the operator's output series have pairwise distinct label sets (C19): a bucket series joins an
+   existing output series whenever its labels without le and metric name are already there ----------- *)
+From Verif Require Import AggProofs AggEnd.
+
+Lemma NoDup_app_disjoint_single {A} (l : list A) x : NoDup l -> ~ In x l -> NoDup (l ++ [x]).
+Proof.
+  induction l as [|a l IH]; intros Hnd Hn; simpl; [constructor; [intros []|constructor]|].
+  inversion Hnd as [|? ? Ha Hl]; subst. constructor.
+  - intros Hin. apply in_app_or in Hin. destruct Hin as [Hin|[<-|[]]]; [contradiction|apply Hn; left; reflexivity].
+  - apply IH; [assumption|intros H; apply Hn; right; assumption].
+Qed.
+
+Lemma load_nodup (V : Type) le : forall (ins : list (labels * option (option V))) outs,
+  NoDup outs -> NoDup (fst (load V le ins outs)).
+Proof.
+  induction ins as [|[l [u|]] ins IH]; intros outs Hnd; cbn [load].
+  - exact Hnd.
+  - destruct (Agg.index_of (del_name (ldel l le)) outs) as [g|] eqn:E.
+    + specialize (IH outs Hnd). destruct (load V le ins outs) as [outs' idx]. exact IH.
+    + assert (Hnd' : NoDup (outs ++ [del_name (ldel l le)])).
+      { apply NoDup_app_disjoint_single; [exact Hnd|apply index_of_none; exact E]. }
+      specialize (IH _ Hnd'). destruct (load V le ins (outs ++ [del_name (ldel l le)])) as [outs' idx]. exact IH.
+  - specialize (IH outs Hnd). destruct (load V le ins outs) as [outs' idx]. exact IH.
+Qed.
+
+Theorem hist_output_series_distinct (V : Type) le (ins : list (labels * option (option V))) :
+  NoDup (fst (load V le ins [])).
+Proof. apply load_nodup. constructor. Qed.
